@@ -418,8 +418,8 @@ func runC13(c *seqCtx) {
 		if len(ops) > 0 && c.Mine() {
 			hs := opsString(ops)
 			for _, prefix := range []string{"", "p"} {
-				if prefix == "p" && len(ops) > 2 && !c.thorough {
-					continue
+				if prefix == "p" && (len(ops) > 3 || (len(ops) > 2 && !c.thorough)) {
+					continue // the store prefix is exercised up to length 2 (quick) / 3 (thorough)
 				}
 				in := prefix + "|" + hs
 				content, sig := c13Run(db, prefix, ops, basic, func(prop, desc string) { c.Fail(prop, desc+" ["+in+"]", in) })
